@@ -74,26 +74,54 @@ def len_field(n):
     return [0xFF, n >> 8, n & 0xFF] if n >= LONG else [n]
 
 
-def ctl_tlv(t, frm, nbytes):
-    """lock control (t=1, nbytes lock bytes) or memory control (t=2) TLV for [frm, frm+nbytes)."""
-    k = 3
-    while (frm >> k) > 15:
-        k += 1
-    offs = frm - ((frm >> k) << k)
-    if offs > 15:
+# A control TLV descriptor is a list [t, frm, size, k, hi]:
+#   t = 1 lock control / 2 memory control, frm = first reserved byte address,
+#   size = the raw size field (lock: number of lock BITS, memory: number of bytes; 0 encodes 256),
+#   k = BytesPerPage exponent (None: the smallest that can express frm), hi = upper nibble of the third value byte
+#       (BytesLockedPerLockBit for a lock control TLV, RFU for a memory control TLV).
+#   The short form [t, frm, nbytes] (whole bytes) is still accepted.
+def norm_ctl(c):
+    c = list(c)
+    if len(c) == 3:
+        t, frm, n = c
+        return [t, frm, (n * 8 if t == 1 else n) & 0xFF, None, 3]
+    return c
+
+
+def ctl_nbytes(c):
+    """number of reserved bytes a control TLV announces (NFC Forum T1T/T2T: lock bits are rounded UP to bytes)"""
+    t, frm, size, k, hi = norm_ctl(c)
+    n = size if size > 0 else 256
+    return (n + 7) // 8 if t == 1 else n
+
+
+def ctl_range(c):
+    c = norm_ctl(c)
+    return range(c[1], c[1] + ctl_nbytes(c))
+
+
+def valid_exps(frm):
+    """BytesPerPage exponents with which frm = PageAddr * 2**k + ByteOffset has both nibbles in range"""
+    return [k for k in range(0, 16) if (frm >> k) <= 15 and frm - ((frm >> k) << k) <= 15]
+
+
+def ctl_tlv(c):
+    t, frm, size, k, hi = norm_ctl(c)
+    ks = valid_exps(frm)
+    if not ks:
         raise ValueError("range start not representable")
-    size = nbytes * 8 if t == 1 else nbytes
-    if size > 256:
-        raise ValueError("range too long")
-    return [t, 3, ((frm >> k) << 4) | offs, size & 0xFF, 0x30 | k]
+    if k is None:
+        k = ks[0]
+    if k not in ks:
+        raise ValueError("exponent cannot express the address")
+    offs = frm - ((frm >> k) << k)
+    return [t, 3, ((frm >> k) << 4) | offs, size & 0xFF, ((hi & 0x0F) << 4) | k]
 
 
 def representable(frm):
-    k = 3
-    while (frm >> k) > 15:
-        k += 1
-    offs = frm - ((frm >> k) << k)
-    return frm - max(0, offs - 15)
+    while not valid_exps(frm):
+        frm -= 1
+    return frm
 
 
 def place(mem, start, skip, stream):
@@ -123,17 +151,22 @@ def build_t2(rnd, cc2, extra, pad, ctls, oldn, style="rnd"):
     size = end + extra
     assert size % 4 == 0
     skip = set()
-    for t, frm, n in ctls:
-        skip |= set(range(frm, frm + n))
+    for c in ctls:
+        skip |= set(ctl_range(c))
     mem = bytearray(size)
     mem[0:10] = bytes([0x08, 1, 2, 0x8B, 3, 4, 5, 6, 4, 0x48])
     mem[12:16] = bytes([0xE1, 0x10, cc2, 0x00])
     for a in range(16, size):
         mem[a] = 0xEE if a in skip else (0x55 if a < end else 0x00)
+    for c in ctls:
+        if c[0] == 1:
+            for a in ctl_range(c):
+                if 16 <= a < size:
+                    mem[a] = 0x00           # lock bytes: unlocked, any stray write is visible
     old = old_message(rnd, oldn, style)
     stream = [0] * pad
-    for t, frm, n in ctls:
-        stream += ctl_tlv(t, frm, n)
+    for c in ctls:
+        stream += ctl_tlv(c)
     stream += [3] + len_field(oldn) + old + [0xFE]
     nxt = place(mem, 16, skip, stream)
     if nxt > end + 1 or (nxt == end + 1 and False):
@@ -141,9 +174,9 @@ def build_t2(rnd, cc2, extra, pad, ctls, oldn, style="rnd"):
     if nxt > end:       # the terminator fell outside: drop it (it is optional)
         raise ValueError("terminator outside")
     lock = set()
-    for t, frm, n in ctls:
-        if t == 1:
-            lock |= set(range(frm, frm + n))
+    for c in ctls:
+        if c[0] == 1:
+            lock |= set(ctl_range(c))
     ow = set(range(10, 16)) | {a for a in lock if a < size}
     if extra >= 2:
         ow |= {end, end + 1}
@@ -156,17 +189,22 @@ def build_t1(rnd, dyn, size, hr1, pad, ctls, oldn, style="rnd", canonical512=Fal
     cc2 = size // 8 - 1
     fixed = set(range(104, 120 if size == 120 else 128))
     skip = set(fixed)
-    for t, frm, n in ctls:
-        skip |= set(range(frm, frm + n))
+    for c in ctls:
+        skip |= set(ctl_range(c))
     mem = bytearray(size)
     mem[0:8] = bytes([0x11, 0x22, 0x33, 0x44, 0x55, 0x66, 0x77, 0x00])
     mem[8:12] = bytes([0xE1, 0x10, cc2, 0x00])
     for a in range(12, size):
         mem[a] = 0 if a in fixed else (0xEE if a in skip else 0x55)
+    for c in ctls:
+        if c[0] == 1:
+            for a in ctl_range(c):
+                if 12 <= a < size and a not in fixed:
+                    mem[a] = 0x00
     old = old_message(rnd, oldn, style)
     stream = [0] * pad
-    for t, frm, n in ctls:
-        stream += ctl_tlv(t, frm, n)
+    for c in ctls:
+        stream += ctl_tlv(c)
     if canonical512:
         stream = list(bytearray.fromhex("0103F230330203F00203"))
     stream += [3] + len_field(oldn) + old + [0xFE]
@@ -174,9 +212,9 @@ def build_t1(rnd, dyn, size, hr1, pad, ctls, oldn, style="rnd", canonical512=Fal
     if nxt > size:
         raise ValueError("does not fit")
     lock = set()
-    for t, frm, n in ctls:
-        if t == 1:
-            lock |= set(range(frm, frm + n))
+    for c in ctls:
+        if c[0] == 1:
+            lock |= set(ctl_range(c))
     hr0 = 0x12 if dyn else 0x11
     fmt = "none"
     if hr1 == 0x48 and not dyn and pad == 0 and not ctls:
@@ -193,8 +231,8 @@ def build_t1(rnd, dyn, size, hr1, pad, ctls, oldn, style="rnd", canonical512=Fal
 
 def build(rnd, d):
     if d["b"] == "t2":
-        return build_t2(rnd, d["cc2"], d["extra"], d["pad"], [tuple(c) for c in d["ctls"]], d["oldn"], d["style"])
-    return build_t1(rnd, d["dyn"], d["size"], d["hr1"], d["pad"], [tuple(c) for c in d["ctls"]], d["oldn"],
+        return build_t2(rnd, d["cc2"], d["extra"], d["pad"], [list(c) for c in d["ctls"]], d["oldn"], d["style"])
+    return build_t1(rnd, d["dyn"], d["size"], d["hr1"], d["pad"], [list(c) for c in d["ctls"]], d["oldn"],
                     d["style"], d.get("canonical512", False))
 
 
@@ -271,7 +309,7 @@ def run_case(case):
     sim.on_write = None
     ev.append(fresh_view(sim))
     const = dict(kind=lay["kind"], unit=lay["unit"], fmt=lay["fmt"], mem0=list(lay["mem0"]), ro=lay["ro"],
-                 ow=lay["ow"], relax=[])
+                 ow=lay["ow"], relax=[], old=list(lay["old"]))
     return dict(id=case["id"], const=const, ev=ev)
 
 
@@ -324,7 +362,17 @@ def layouts_c01(rnd, quick):
             except ValueError:
                 pass
             mid = representable(16 + cc2 * 4)
-            out.append(t2_desc(cc2, (i + 1) % 4, [(2, mid, rnd.choice([1, 3, 8]))], 7))
+            out.append(t2_desc(cc2, (i + 1) % 4, [vary([2, mid, rnd.choice([1, 3, 8])], i)], 7))
+            # lock bytes inside the area behind the NDEF TLV, bit counts that do not fill the last byte
+            bits = [12, 9, 1, 15, 7, 17, 0, 255][i % 8]
+            if bits not in (0, 255) or cc2 * 8 > 320:
+                out.append(t2_desc(cc2, (i + 2) % 4, [vary([1, mid + 4, bits, None, 3], i + 1)], 5))
+            if not quick:
+                for j, b2 in enumerate((1, 7, 9, 12, 15, 17, 33)):
+                    try:
+                        out.append(t2_desc(cc2, j % 4, [vary([1, mid + j, b2, None, 3], j)], 5))
+                    except ValueError:
+                        pass
     out.append(t2_desc(33, 7, (), 3))           # 257 bytes from the NDEF TLV to the end of the area
     if not quick:
         out.append(t2_desc(33, 6, (), 3))       # 258
@@ -335,13 +383,16 @@ def layouts_c01(rnd, quick):
     for pad in ([0, 1] if quick else range(0, 4)):
         out.append(t1_desc(False, 120, 0x48, pad, (), rnd.choice([0, 4, 60])))
         out.append(t1_desc(False, 120, 0x00, pad, (), rnd.choice([0, 9])))
-    out.append(t1_desc(False, 120, 0x00, 2, [(2, 60, 4)], 6))
+    out.append(t1_desc(False, 120, 0x00, 2, [vary([2, 60, 4], 1)], 6))
+    out.append(t1_desc(False, 120, 0x00, 1, [vary([1, 56, 12, None, 3], 2)], 6))
+    out.append(t1_desc(False, 120, 0x00, 0, [vary([2, 96, 0, None, 3], 0)], 6))       # 256 bytes: the tail and beyond
     # Type 1 dynamic
     out.append(t1_desc(True, 512, 0x4C, 0, (), 12, canonical512=True))
     for k, size in enumerate([256, 512] if quick else [256, 384, 512, 1024, 2048]):
         for pad in ([k, k + 5] if quick else range(0, 8)):
             out.append(t1_desc(True, size, 0x00, pad, (), rnd.choice([0, 10, 100])))
-        out.append(t1_desc(True, size, 0x00, 3, [(2, 136, 5)], 20))
+        out.append(t1_desc(True, size, 0x00, 3, [vary([2, 136, 5], k)], 20))
+        out.append(t1_desc(True, size, 0x00, 2, [vary([1, 144, [9, 15, 1, 12, 7][k % 5], None, 3], k + 1)], 20))
     return out
 
 
@@ -419,41 +470,86 @@ def cases_c02(seed, quick):
     return cases
 
 
+def vary(c, i):
+    """give a control TLV descriptor one of the possible position encodings (BytesPerPage exponent) and an
+    arbitrary upper nibble (BytesLockedPerLockBit / RFU); i selects deterministically"""
+    t, frm, size, k, hi = norm_ctl(c)
+    ks = valid_exps(frm)
+    if not ks:
+        raise ValueError("not representable")
+    return [t, frm, size, ks[i % len(ks)], (3 + 5 * i) % 16]
+
+
 def layouts_c03(rnd, quick):
-    """control TLVs whose reserved ranges fall before / inside / directly after / beyond the message."""
+    """control TLVs whose reserved ranges fall before / inside / directly after / beyond the message; lock bit
+    counts that are not a multiple of 8, size 0 (= 256), every position encoding, page aligned starts / ends."""
     out = []
-    for cc2, pad in ([(12, 0), (19, 1), (0x3E, 2)] if quick else [(12, 0), (12, 3), (19, 1), (32, 2), (33, 0), (0x3E, 2), (0x6D, 1)]):
+    combos = [(12, 0), (19, 1), (0x3E, 2)] if quick else [(12, 0), (12, 3), (19, 1), (32, 2), (33, 0), (0x3E, 2), (0x6D, 1)]
+    vi = 0
+    for ci, (cc2, pad) in enumerate(combos):
         end = 16 + cc2 * 8
         off1 = 16 + pad + 5          # NDEF TLV offset with one control TLV in front
         off2 = 16 + pad + 10
-        spots = [("after-L", off1 + 2, 2), ("in-value", off1 + 9, 3), ("after-value", off1 + 2 + 12, 4),
-                 ("area-end", end - 3, 3), ("cross-end", end - 2, 4), ("beyond", end, 2)]
+        spots = [("after-L", [2, off1 + 2, 2]), ("in-value", [2, off1 + 9, 3]), ("after-value", [2, off1 + 2 + 12, 4]),
+                 ("area-end", [2, end - 3, 3]), ("cross-end", [2, end - 2, 4]), ("beyond", [2, end, 2]),
+                 ("in-value-lock", [1, off1 + 9, 3]), ("beyond-lock", [1, end, 2])]
         if end > 16 * 8 + 16:
-            spots.append(("offs>=8", 8 * 16 + 12, 3))          # PageAddr 8, ByteOffset 12, 16-byte pages
-        for name, frm, n in spots:
+            spots += [("offs>=8", [2, 8 * 16 + 12, 3]), ("offs>=8-lock", [1, 8 * 16 + 12, 3])]
+        # lock bit counts that do not fill the last lock byte, inside the area behind the NDEF TLV
+        p4 = ((off1 + 12) // 4) * 4                       # a page start behind the TLV header
+        more = [("lock-1bit", [1, off1 + 7, 1, None, 3]), ("lock-7bit@page", [1, p4, 7, None, 3]),
+                ("lock-9bit", [1, p4 + 2, 9, None, 3]),          # two bytes ending exactly at a page end
+                ("lock-12bit@page", [1, p4 + 4, 12, None, 3]), ("lock-15bit", [1, off1 + 5, 15, None, 3]),
+                ("lock-17bit", [1, p4 + 1, 17, None, 3]),         # three bytes ending exactly at a page end
+                ("lock-20bit-end", [1, end - 3, 20, None, 3]),    # the last three bytes of the area
+                ("mem-1@page-end", [2, p4 + 3, 1, None, 3]), ("mem-4@page", [2, p4 + 8, 4, None, 3]),
+                ("mem-256-beyond", [2, end, 0, None, 3]), ("lock-256bit-beyond", [1, end, 0, None, 3])]
+        if cc2 * 8 > 320:
+            more += [("mem-256-inside", [2, off1 + 20, 0, None, 3]), ("lock-256bit-inside", [1, off1 + 24, 0, None, 3]),
+                     ("mem-255-inside", [2, off1 + 17, 255, None, 3]), ("lock-255bit-inside", [1, off1 + 11, 255, None, 3])]
+        else:
+            more += [("mem-256-tail", [2, end - 9, 0, None, 3])]      # 256 bytes: the area's tail and far beyond
+        if quick:                      # thin out: every spot on one of the three combinations
+            more = [m for j, m in enumerate(more) if j % len(combos) == ci or m[0] in ("lock-12bit@page", "lock-9bit")]
+        for name, c in spots + more:
+            vi += 1
             try:
-                if representable(frm) != frm:
-                    continue
-                out.append((name, t2_desc(cc2, pad, [(2, frm, n)], 12, "rnd")))
-                if name in ("beyond", "in-value", "offs>=8"):
-                    out.append((name + "-lock", t2_desc(cc2, pad, [(1, frm, n)], 12, "rnd")))
+                out.append((name, t2_desc(cc2, pad, [vary(c, vi)], 12, "rnd")))
+                if not quick:          # the same range with every possible BytesPerPage exponent
+                    for k in valid_exps(c[1])[1:]:
+                        cn = norm_ctl(c)
+                        out.append((name + "-k%d" % k, t2_desc(cc2, pad, [[cn[0], cn[1], cn[2], k, (k * 7) % 16]], 12, "rnd")))
             except ValueError:
                 continue
         try:
-            if representable(end) == end:
-                out.append(("two", t2_desc(cc2, pad, [(1, end, 2), (2, off2 + 6, 3)], 12, "rnd")))
+            out.append(("two", t2_desc(cc2, pad, [vary([1, end, 2], vi), vary([2, off2 + 6, 3], vi + 1)], 12, "rnd")))
+            out.append(("two-odd", t2_desc(cc2, pad, [vary([1, off2 + 9, 11, None, 3], vi + 2), vary([2, off2 + 14, 2], vi)], 12, "rnd")))
         except ValueError:
             pass
         # NDEF TLV in the last two bytes of the data area (NULL padded), with and without memory behind it
         out.append(("tlv-at-end", t2_desc(cc2, cc2 * 8 - 2, (), 0, "rnd", extra=16)))
     out.append(("tlv-at-end-static", t2_desc(6, 46, (), 0, "rnd", extra=0)))
     out.append(("plain", t2_desc(6, 0, (), 20, "rnd", extra=0)))
-    # Type 1
+    # Type 1 (tt1.py has its own get_lock_byte_range / get_rsvd_byte_range)
     out.append(("topaz", t1_desc(False, 120, 0x48, 0, (), 40)))
-    out.append(("t1s-memctl", t1_desc(False, 120, 0x00, 1, [(2, 40, 6)], 10)))
+    out.append(("t1s-memctl", t1_desc(False, 120, 0x00, 1, [vary([2, 40, 6], 1)], 10)))
+    out.append(("t1s-lock-12bit", t1_desc(False, 120, 0x00, 0, [vary([1, 48, 12, None, 3], 2)], 10)))
+    out.append(("t1s-lock-9bit", t1_desc(False, 120, 0x00, 2, [vary([1, 62, 9, None, 3], 0)], 10)))
+    out.append(("t1s-mem-256", t1_desc(False, 120, 0x00, 1, [vary([2, 90, 0, None, 3], 1)], 10)))
     out.append(("topaz512", t1_desc(True, 512, 0x4C, 0, (), 200, canonical512=True)))
     out.append(("t1d-near-rsvd", t1_desc(True, 256, 0x00, 80, (), 4)))
-    out.append(("t1d-memctl", t1_desc(True, 512, 0x00, 2, [(2, 136, 16)], 30)))
+    out.append(("t1d-memctl", t1_desc(True, 512, 0x00, 2, [vary([2, 136, 16], 3)], 30)))
+    out.append(("t1d-lock-15bit@block", t1_desc(True, 512, 0x00, 1, [vary([1, 136, 15, None, 3], 1)], 30)))
+    out.append(("t1d-lock-1bit-blockend", t1_desc(True, 256, 0x00, 3, [vary([1, 143, 1, None, 3], 2)], 30)))
+    out.append(("t1d-mem-256", t1_desc(True, 512, 0x00, 0, [vary([2, 200, 0, None, 3], 0)], 30)))
+    if not quick:
+        for bits in (1, 7, 9, 12, 15, 17, 33, 255, 0):
+            for j, frm in enumerate((40, 47, 64)):
+                try:
+                    out.append(("t1s-lock-%dbit@%d" % (bits, frm), t1_desc(False, 120, 0x00, j, [vary([1, frm, bits, None, 3], bits + j)], 8)))
+                    out.append(("t1d-lock-%dbit@%d" % (bits, frm + 96), t1_desc(True, 512, 0x00, j, [vary([1, frm + 96, bits, None, 3], bits + j)], 8)))
+                except ValueError:
+                    pass
     return out
 
 
@@ -469,22 +565,26 @@ def cases_c03(seed, quick):
         if p is None:
             raise HarnessError("generated layout not readable by nfcpy: %r" % desc)
         cap, off = p["cap"], p["off"]
-        lens = {1, cap // 2, cap, cap + 1} | ({13, cap - 1, 254, 255, 256} if not quick else set())
+        light = "-k" in name                      # encoding variants of a layout that is exercised in full elsewhere
+        lens = set() if light else ({1, cap, cap + 1} | ({13, cap // 2, cap - 1, 254, 255, 256} if not quick else set()))
         # lengths whose last byte sits directly in front of a reserved range
         rs = set()
-        for t, frm, n in desc["ctls"]:
-            rs |= set(range(frm, frm + n))
+        for c in desc["ctls"]:
+            rs |= set(ctl_range(c))
         if desc["b"] == "t1":
             rs |= set(range(104, 128))
-        for t, frm, n in desc["ctls"]:
-            lens.add(len([a for a in range(off + 2, frm) if a not in rs]))
+        for c in desc["ctls"]:
+            frm = c[1]
+            if not light:
+                lens.add(len([a for a in range(off + 2, frm) if a not in rs]))             # ends right before
+            lens.add(len([a for a in range(off + 2, frm + ctl_nbytes(c) + 3) if a not in rs]))   # runs across it
         for n in sorted(lens):
             if n < 1 or n > cap + 1 or (n >= LONG and p["hdr_rsvd"]):
                 continue
             cases.append(dict(id="w%d-%s.%d" % (li, name, n), lay=desc, lseed=lseed, op="write", n=n,
                               mseed=seed + li, cut=None))
         if p["lay"]["fmt"] != "none":
-            for wipe in ((None, 0xA5) if quick else (None, 0x00, 0xA5)):
+            for wipe in ((0xA5,) if light else (None, 0xA5) if quick else (None, 0x00, 0xA5)):
                 cases.append(dict(id="f%d-%s.%s" % (li, name, "n" if wipe is None else "%02x" % wipe), lay=desc,
                                   lseed=lseed, op="format", wipe=wipe, cut=None))
     return cases
@@ -652,9 +752,10 @@ def mc_compute(pid, quick):
     c = pid.lower()
     cfg = "MC_TlvTag_%s%s.cfg" % (c, "q" if quick else "t")
     r = tlc.run("MC_TlvTag.tla", cfg, pid, workers=16, timeout=600 if quick else 1800)
-    need = {"C01": ["W_DoneLong", "W_DoneCap", "W_Rejected", "W_Crash", "W_SkipInside"],
+    need = {"C01": ["W_DoneLong", "W_DoneCap", "W_Rejected", "W_Crash", "W_SkipInside", "W_OddLock"],
             "C02": ["W_CutNew", "W_CutOld", "W_CutEmpty", "W_Straddle", "W_Mixture"],
-            "C03": ["W_SkipInside", "W_SkipAfter", "W_SkipBeyond", "W_FormatWipe", "W_Escape"]}[pid]
+            "C03": ["W_SkipInside", "W_SkipAfter", "W_SkipBeyond", "W_FormatWipe", "W_Escape", "W_OddLock", "W_Mem256",
+                    "W_Exp2", "W_Exp3", "W_Exp4"]}[pid]
     hit, _ = tlc.witnesses("MC_TlvTag.tla", "MC_TlvTag_%sw.cfg" % c, pid, need, timeout=600, workers=2)
     return cfg, r, need, hit
 
